@@ -118,6 +118,8 @@ func renderGenbank(origin string, feats []gbFeat) []byte {
 	return b.Bytes()
 }
 
+var qcsvCache = map[int][]byte{}
+
 var pipeGb = renderGenbank(pipeRef, []gbFeat{{loc: "4..30", gene: "g1", start: 1, trans: "MAKGPCTE"}})
 
 type pipeSpec struct {
@@ -131,6 +133,8 @@ var pipeSpecs = map[string]pipeSpec{
 	"tomawrap": {"sam.blockToFastaRecord", "fastaio.WriteAlignment", 0},
 	"samvar":   {"sam.getVariantsSam", "variants.WriteVariants", 1},
 	"variants": {"variants.getVariants", "variants.WriteVariants", 1},
+	"variantsref": {"variants.getVariants", "variants.WriteVariants", 1},
+	"toprankgate": {"updown.getLines", "updown.reorderRecords", 1},
 	"snps":     {"snps.getSNPs", "snps.writeOutput", 1},
 	"udlist":   {"updown.getLines", "updown.writeOutput", 1},
 }
@@ -167,6 +171,29 @@ func pipeCall(cmd string, n, threads, badAt int, w *failWriter) (error, bool) {
 			return sam.Variants(bytes.NewReader(samData), bytes.NewReader(refFa), true, bytes.NewReader(pipeGb), "gb", w, -1, -1, false, 0.0, false, threads)
 		case "variants":
 			return variants.Variants(bytes.NewReader(msa), false, "", bytes.NewReader(pipeGb), "gb", w, -1, -1, false, 0.0, false, threads)
+		case "variantsref":
+			// the reference is record 1 of the alignment (not the first, not the last): the writer passes over it
+			withRef := append([]rec{}, qs...)
+			if len(withRef) > 1 {
+				withRef = append(withRef[:1], append([]rec{{"ref", pipeRef}}, withRef[1:]...)...)
+			} else {
+				withRef = append([]rec{{"ref", pipeRef}}, withRef...)
+			}
+			return variants.Variants(bytes.NewReader(renderFasta(withRef, 0, false)), false, "ref", bytes.NewReader(pipeGb), "gb", w, -1, -1, false, 0.0, false, threads)
+		case "toprankgate":
+			// csv queries (no hooks on that path), fasta targets through getLines -> reorderRecords; many ties among the targets
+			// (the csv is made once, during the reference run, when the hooks are inert)
+			qcsv, ok := qcsvCache[n]
+			if !ok {
+				var b bytes.Buffer
+				if err := updown.List(bytes.NewReader(refFa), bytes.NewReader(msa), &b); err != nil {
+					return err
+				}
+				qcsv = b.Bytes()
+				qcsvCache[n] = qcsv
+			}
+			return updown.TopRanking(bytes.NewReader(qcsv), bytes.NewReader(msa), bytes.NewReader(refFa), w, false,
+				"csv", "fasta", []string{}, 0, 3, 3, 3, 3, 0, 0, 0, 0, 0.5, 10000, false, 0)
 		case "snps":
 			return snps.SNPs(bytes.NewReader(refFa), bytes.NewReader(msa), false, false, 0.0, w)
 		case "udlist":
@@ -296,6 +323,13 @@ func runPipe(vec map[string]interface{}) map[string]interface{} {
 	// what reached the destination, record by record, against the reference run
 	rh, rrecs, _ := splitRecords(cmd, ref.buf.String(), spec.hdrLines)
 	h, recs, order := splitRecords(cmd, w.buf.String(), spec.hdrLines)
+	if cmd == "variantsref" && n > 1 {
+		for k, x := range order {
+			if x >= 1 {
+				order[k] = x + 1
+			}
+		}
+	}
 	obs["order"] = order
 	obs["header_ok"] = h == rh || (w.failed > 0 && strings.HasPrefix(rh, h))
 	same := true
